@@ -29,13 +29,14 @@ RULE = ("op sequences over a pool of 3-5 keys x (4 IPv4 + 3 IPv6 + 2 host-name a
         "remove_by_address / blacklist appends / load_snapshot, interleaved with all get_* queries and snapshot, cache "
         "caps drawn from {1,2,3,500}; random sequences of length 10..200 plus exhaustive enumeration of all sequences "
         "over a 20 op alphabet to depth 3 (quick) / 4 (thorough) and over a 10 op alphabet to depth 5 (thorough), each "
-        "followed by a sweep of 14 queries and a second sweep of 8 (asking again); a scripted corpus of 12 shapes; distinct = "
+        "followed by a sweep of 14 queries and a second sweep of 8 (asking again); a scripted corpus of 15 shapes; distinct = "
         "distinct op-line sequence; non-trivial = contains a query after a removal/address update/service change "
         "that follows an earlier query (the stale-cache shape)")
 TRUSTED_BASE = [
     "tools/gen_c12.py: reads ADDRESS_TYPE_* constants, the struct formats of Address.pack/unpack (AST), Peer.INTERFACE_ORDER and the three cache caps",
     "hand-written model of every Network mutator/query incl. LRU side effects (Ipv8/C12/Model.lean), tied by the correspondence run",
-    "object identity of Peer instances is abstracted in the model (one record per key); the harness checks identity on the real objects",
+    "object identity of Peer instances is abstracted in the model (one record per key, a generation number where the code tests `is`); the harness checks identity on the real objects",
+    "PeerObserver callbacks are checked by the oracle only (exactly one on_peer_added/on_peer_removed per key entering/leaving the membership); they are not in the Lean model",
     "socket.inet_pton/inet_ntop and the UTF-8 codec (text form <-> bytes of an address) are outside the model",
 ]
 ASSUMPTIONS = [
@@ -333,6 +334,20 @@ class Real:
         self.W = world()
         self.net = self.W.Network()
 
+    def observe(self):
+        """attach a PeerObserver; returns the (live) event list"""
+        from ipv8.peerdiscovery.network import PeerObserver
+        W, log = self.W, []
+
+        class Obs(PeerObserver):
+            def on_peer_added(self, peer):
+                log.append(("added", W.peer_key(peer)))
+
+            def on_peer_removed(self, peer):
+                log.append(("removed", W.peer_key(peer)))
+        self.net.add_peer_observer(Obs())
+        return log
+
     def digest(self):
         W, n = self.W, self.net
         return (show_list(show_peer(W.peer_key(p), W.peer_slots(p)) for p in n.verified_peers),
@@ -481,6 +496,88 @@ def check_query(ctx: Ctx, spec: Spec, real: Real, t, got: str, objs, history, li
             fail("mismatch", f"returns {got}, expected {exp}")
 
 
+def classify(spec: "Spec", real: "Real", t) -> list:
+    """input class / branch of one protocol line, derived from the reference graph before the line is executed
+    (evidence only: which branches of network.py the generators reach, and how often)"""
+    op = t[0]
+    out = []
+    if op in ("add", "disc"):
+        k, slots = parse_peer(t[1])
+        vals = list(slots.values())
+
+        def add_branch():
+            if k in spec.BLM:
+                return "blacklisted-mid"
+            if k in spec.V:
+                return "address-update" if any(spec.V[k].get(s_) != a for s_, a in slots.items()) else "known-no-change"
+            if any(a in spec.AA for a in vals):
+                return "some-address-known" + ("+blacklisted-address" if any(a in spec.BL for a in vals) else "")
+            if all(a not in spec.BL for a in vals):
+                return "all-addresses-new" if vals else "no-address"
+            return "refused-blacklisted-address"
+        if op == "disc":
+            a = t[2]
+            if a in spec.BL:
+                out.append("disc:blacklisted-address")
+            elif a not in spec.AA:
+                out.append("disc:new-address")
+            elif spec.AA[a][0] not in spec.V:
+                out.append("disc:reassigned(introducer-gone)")
+            else:
+                out.append("disc:kept(introducer-verified)")
+            if k in spec.V and a in spec.V[k].values():
+                out.append("disc:own-address")
+        out.append(f"{op}>add:{add_branch()}")
+    elif op == "rmp":
+        k, slots = parse_peer(t[1])
+        if k not in spec.V:
+            out.append("rmp:key-not-verified")
+        elif spec.V[k] == slots:
+            out.append("rmp:stored-object")
+        else:
+            out.append("rmp:fresh-object-other-addresses")
+    elif op == "rma":
+        n = len(spec.peers_at(t[1]))
+        out.append("rma:removes-%s-peers" % (n if n < 2 else "2+"))
+        if n and t[1] not in spec.AA:
+            out.append("rma:address-used-by-verified-peer-but-not-in-_all_addresses")
+    elif op == "load":
+        data = bytes.fromhex(t[1]) if t[1] != "-" else b""
+        chunks, end = snapshot_chunks(data)
+        out.append("load:%s-addresses" % (len(chunks) if len(chunks) < 3 else "3+"))
+        if end != len(data):
+            out.append("load:garbage-tail")
+        if any(chunk_addr_token(c) in spec.BL for c in chunks):
+            out.append("load:blacklisted-address")
+        if any(spec.AA.get(chunk_addr_token(c), (None,))[0] is not None for c in chunks):
+            out.append("load:overwrites-introduced-address")
+    elif op == "svcs":
+        k, _ = parse_peer(t[1])
+        out.append("svcs:" + ("verified-peer" if k in spec.V else "unverified-peer"))
+    elif op == "qa":
+        n = len(spec.peers_at(t[1]))
+        out.append("qa:%s-candidates" % (n if n < 2 else "2+"))
+        c = real.net.reverse_ip_lookup
+        out.append("qa:cache-" + ("hit" if tuple(addr_value(t[1])) in c else "miss")
+                   + ("+full" if len(c) >= real.net.reverse_ip_cache_size else ""))
+    elif op == "qs" or (op == "qw" and t[1] != "-"):
+        c = real.net.reverse_service_lookup
+        out.append(f"{op}:cache-" + ("hit" if svc_bytes(t[1]) in c else "miss")
+                   + ("+full" if len(c) >= real.net.reverse_service_cache_size else ""))
+    elif op == "qi":
+        c = real.net.reverse_intro_lookup
+        hit = any(real.W.peer_key(p) == int(t[1][1:]) for p in c)
+        out.append("qi:cache-" + ("hit" if hit else "miss") + ("+full" if len(c) >= real.net.reverse_intro_cache_size else ""))
+    elif op == "snap":
+        miss = sum(1 for k in spec.V if spec.preferred(k) is not None and spec.preferred(k) not in spec.AA)
+        out.append("snap:%s-verified-peers" % (len(spec.V) if len(spec.V) < 3 else "3+"))
+        if miss:
+            out.append("snap:peer-address-not-in-_all_addresses")
+        if any(spec.preferred(k) in (None, ZERO) for k in spec.V):
+            out.append("snap:peer-without-usable-address")
+    return out
+
+
 def sweep_lines(keys, addrs):
     """every query once"""
     out = []
@@ -506,13 +603,19 @@ def execute(ctx: Ctx, lines, tag: str):
     spec, real = Spec(), Real()
     sent, answers = [], []
     last = real.digest()
+    events = real.observe()
     for i, ln in enumerate(lines):
         t = ln.split()
         if t[0] == "rmp" and t[1].endswith(":*"):
             k = int(t[1][1:-2])
             tok = real.canonical_token(k)
             t[1] = tok if tok is not None else f"p{k}:-"
+        if t[0] != "caps":
+            for c in classify(spec, real, t):
+                ctx.count("class:" + c)
         if t[0] in MUTATORS:
+            del events[:]
+            keys_before = set(spec.V)
             try:
                 real.mutate(t)
                 ans = "ok"
@@ -522,6 +625,15 @@ def execute(ctx: Ctx, lines, tag: str):
             spec.mutate(t)
             sent.append(" ".join(t))
             answers.append(ans)
+            # PeerObserver callbacks: exactly the keys that entered / left the membership, once each
+            want = sorted([("added", k) for k in set(spec.V) - keys_before] + [("removed", k) for k in keys_before - set(spec.V)])
+            if sorted(events) != want:
+                ctx.oracle_fail(f"{_MUT_SITE[t[0]]}:observer-events", f"after `{' '.join(t)}` observers saw {sorted(events)}, "
+                                f"membership changed by {want}", {"lines": sent[:], "failing_line": i})
+                ctx.count(f"oracle_fail:{_MUT_SITE[t[0]]}:observer-events")
+                return sent, answers, False
+            for ev, _k in want:
+                ctx.count("class:observer:" + ev)
             last = real.digest()
             if last != spec.digest():
                 d_r, d_s = last, spec.digest()
@@ -731,6 +843,11 @@ def scripted():
         # a re-added key is a new Peer object: a cached object of the old incarnation must not be returned
         ["caps 500 500 500", f"add p0:0={a}", f"qa {a} ?", "rmp p0:*", f"add p0:0={b}", f"qa {a} ?", f"qa {b} ?"],
         ["caps 500 500 500", f"add p0:0={a}", "svcs p0:- [s1]", "qs s1", "rmp p0:*", f"add p0:0={b}", "qs s1", "qw s1 0"],
+        # a verified peer whose address is NOT in _all_addresses (address update / shared address + remove_peer):
+        # removal by that address, lookups and the snapshot must still see it
+        ["caps 1 1 1", f"add p0:0={b}", f"add p0:0={a}", f"qa {a} ?", f"rma {a}", "qk p0", f"qa {a} ?", f"add p0:0={a}", "qk p0"],
+        ["caps 500 500 500", f"add p0:0={a}", f"add p0:0={b}", "snap", f"qa {b} ?", "qw - 0"],
+        ["caps 500 500 500", f"add p0:0={a}", f"add p1:0={a}", "rmp p0:*", "snap", f"qa {a} ?", f"rma {a}", "qk p1", "snap"],
         # load_snapshot over an introduced address, eviction of the service and address caches
         ["caps 1 1 1", f"disc p0:0={a} {x} s1 0", "qi p0", "load " + addr_chunk(x).hex(), "qi p0", "qw - 0"],
         ["caps 1 1 1", f"add p0:0={a}", f"add p1:0={b}", "svcs p0:- [s1]", "svcs p1:- [s2]", "qs s1", "qs s2", "qs s1",
